@@ -203,6 +203,33 @@ static void check_string(const uint8_t *x, size_t n)
     mc::crash_context("C18.harness");
 }
 
+// variant build (g++ -O2 -DNDEBUG under ASan; the main build is clang++ -O1 with assertions): same TU, sub-check
+// names get a suffix and the two expensive enumerations are left to the main build
+#ifdef C18_VARIANT
+#define NAME(x) x "_gcc_O2_ndebug"
+#else
+#define NAME(x) x
+#endif
+
+// ---------------------------------------------------------------- recompute after rewriting the field in place
+// The decoders' value depends on the BYTES of the field, not on the pointer: the same pointer argument after
+// the field was rewritten in place must give the new value.  Writes and reads sit in one optimised function
+// that sees the repository header, so a declaration that lets the compiler merge or hoist the reads shows.
+template <class T, class E, class D>
+static __attribute__((noinline)) void rewrite_loop(const char *name, char *field, const T *vals, int n, E enc, D dec)
+{
+    T got[64];
+    for (int i = 0; i < n; i++)
+    {
+        enc(field, vals[i]); // rewrite the SAME field
+        got[i] = dec((const char *)field);
+    }
+    for (int i = 0; i < n; i++)
+        if (got[i] != vals[i])
+            mc::violation(mc::fmt("C18.%s.recompute_stale", name), "field rewritten in place with value #%d = %llx, decoder returned %llx (first value %llx)", i,
+                          (unsigned long long)vals[i], (unsigned long long)got[i], (unsigned long long)vals[0]);
+}
+
 static const uint8_t SMALL[6] = {0x00, 0x01, 0x7F, 0x80, 0xFF, 'A'};
 static uint8_t g_set32[32];
 
@@ -373,7 +400,7 @@ MC_INIT
         g_set32[i] = forced[i];
 
     // (a) all strings of length 0..6 over {00,01,7F,80,FF,'A'}
-    mc::add_check("strings_len0_6_over_6_symbols", [] {
+    mc::add_check(NAME("strings_len0_6_over_6_symbols"), [] {
         int pre = mc::choose(216);
         uint8_t m[6] = {SMALL[pre / 36], SMALL[pre / 6 % 6], SMALL[pre % 6], 0, 0, 0};
         mc::describe("strings starting %02x%02x%02x, length 3..6%s", m[0], m[1], m[2], pre == 0 ? " and all strings of length 0..2" : "");
@@ -413,7 +440,7 @@ MC_INIT
     });
 
     // (b) all 1- and 2-byte strings over 0..255
-    mc::add_check("all_1_and_2_byte_strings", [] {
+    mc::add_check(NAME("all_1_and_2_byte_strings"), [] {
         int b0 = mc::choose(256);
         mc::describe("strings %02x and %02x??", b0, b0);
         uint8_t m[2] = {(uint8_t)b0, 0};
@@ -429,7 +456,8 @@ MC_INIT
     });
 
     // (c) 3-byte strings: quick 256 x 256 x 32-value set, thorough all 2^24
-    mc::add_check("all_3_byte_strings", [] {
+#ifndef C18_VARIANT
+    mc::add_check(NAME("all_3_byte_strings"), [] {
         int b0 = mc::choose(256);
         int b1hi = mc::choose(4);
         bool full = mc::thorough();
@@ -450,9 +478,10 @@ MC_INIT
         mc::nontrivial();
     });
 
+#endif
     // (f) long inputs: lengths around 2^7, 2^8 (thorough: 2^16) and beyond, so that a counter, index or size
     // narrowed to 8/16 bits (or a signed char index) cannot hide; x n mod 3 variants x byte patterns
-    mc::add_check("long_inputs_around_256_and_65536", [] {
+    mc::add_check(NAME("long_inputs_around_256_and_65536"), [] {
         static const size_t base_q[] = {127, 128, 255, 256, 257, 300, 1000};
         static const size_t base_t[] = {127, 128, 255, 256, 257, 300, 1000, 65535, 65536, 65537};
         const size_t *base = mc::thorough() ? base_t : base_q;
@@ -489,11 +518,12 @@ MC_INIT
         mc::nontrivial();
     });
 
+#ifndef C18_VARIANT
     // (g) the codecs called during STATIC INITIALISATION of a translation unit linked before them: the probe
     // executable (c18_early.o first, the library objects, c18_late.o last) runs the RFC 4648 vectors from a
     // global constructor and again from main(); both must equal the references.  The probe is a separate
     // process because a crash before main() must be an observation, not the end of the check.
-    mc::add_check("static_init_time", [] {
+    mc::add_check(NAME("static_init_time"), [] {
         (void)mc::choose(1); // a single case: the probe process runs all vectors
         mc::describe("RFC 4648 vectors pushed through every codec from a global constructor linked before the library");
         char self[4096];
@@ -560,8 +590,121 @@ MC_INIT
         mc::nontrivial();
     });
 
+#endif
+    // (h) every alignment of input and output for short lengths (0..12 bytes): a routine that handles an
+    // unaligned head / aligned middle / tail separately must not touch a byte outside [p, p+n) and [out, out+2n)
+    mc::add_check(NAME("alignment_x_short_lengths"), [] {
+        int c = mc::choose(13 * 8);
+        int n = c / 8, ioff = c % 8;
+        mc::describe("length %d, input at offset %d mod 8, output at offsets 0..7", n, ioff);
+        uint8_t x[16];
+        for (int i = 0; i < n; i++)
+            x[i] = (uint8_t)(0x9D + i * 0x3B);
+        string want = ref_hex(x, n), hx = mc::hex(x, n);
+        for (int ooff = 0; ooff < 8; ooff++)
+        {
+            // blocks are exactly offset + size bytes: the data ends flush against the redzone, and malloc blocks are
+            // 16-aligned, so p + ioff has the chosen residue
+            Exact in(ioff + n), out(ooff + 2 * n), back(ioff + n);
+            if (n)
+                memcpy(in.p + ioff, x, n);
+            mc::crash_context("C18.hexascii_encode.memory.unaligned");
+            hexascii_encode(n || ioff ? in.p + ioff : in.p, n, out.p + ooff);
+            string got((const char *)out.p + ooff, 2 * n);
+            if (got != want)
+                mc::violation("C18.hexascii_encode.value.unaligned", "x=%s at offset %d, output offset %d: got %s want %s", hx.c_str(), ioff, ooff, got.c_str(),
+                              want.c_str());
+            for (int k = 0; k < ooff; k++)
+                if (out.p[k] != 0xEE)
+                    mc::violation("C18.hexascii_encode.writes_before_output", "x=%s: byte %d in front of the output buffer was overwritten", hx.c_str(), k - ooff);
+            mc::crash_context("C18.hexascii_decode.memory.unaligned");
+            hexascii_decode(out.p + ooff, 2 * n, back.p + ioff);
+            if (n && memcmp(back.p + ioff, x, n) != 0)
+                mc::violation("C18.hexascii_decode.roundtrip.unaligned", "x=%s at offset %d: decode(encode(x))=%s", hx.c_str(), ioff, mc::hex(back.p + ioff, n).c_str());
+            for (int k = 0; k < ioff; k++)
+                if (back.p[k] != 0xEE)
+                    mc::violation("C18.hexascii_decode.writes_before_output", "x=%s: byte %d in front of the output buffer was overwritten", hx.c_str(), k - ioff);
+        }
+        {
+            Exact in(ioff + n);
+            if (n)
+                memcpy(in.p + ioff, x, n);
+            mc::crash_context("C18.codecs.memory.unaligned");
+            string a = igris::hexascii_encode(in.p + ioff, (size_t)n);
+            string e = igris::base64_encode(in.p + ioff, (size_t)n), u = igris::base64url_encode(in.p + ioff, (size_t)n);
+            if (a != want || e != ref_b64(x, n, false) || u != ref_b64(x, n, true))
+                mc::violation("C18.codecs.value.unaligned", "x=%s at offset %d: hex %s base64 %s base64url %s", hx.c_str(), ioff, a.c_str(), e.c_str(), u.c_str());
+            if (igris::base64_decode(e) != string((const char *)x, n) || igris::base64url_decode(u) != string((const char *)x, n))
+                mc::violation("C18.codecs.roundtrip.unaligned", "x=%s at offset %d", hx.c_str(), ioff);
+        }
+        mc::crash_context("C18.harness");
+        mc::outcome(mc::fmt("%d", n % 4));
+        mc::more_cases(7, 7);
+        if (ioff % 4)
+            mc::nontrivial();
+    });
+
+    // (i) rewrite the field in place and decode again through the same pointer (see rewrite_loop)
+    mc::add_check(NAME("recompute_after_rewriting_field_in_place"), [] {
+        int c = mc::choose(4 * 16);
+        int w = c / 16, seed = c % 16;
+        mc::describe("uint%d field rewritten in place 64 times, value family %d", 8 << w, seed);
+        Exact fld(16);
+        uint64_t v[64];
+        for (int i = 0; i < 64; i++)
+            v[i] = (0x9E3779B97F4A7C15ull * (uint64_t)(i + 1 + 64 * seed)) ^ (i & 1 ? ~0ull : 0) ^ ((uint64_t)i << (seed * 4));
+        v[1] = ~v[0];
+        mc::crash_context("C18.recompute.memory");
+        if (w == 0)
+        {
+            uint8_t a[64];
+            for (int i = 0; i < 64; i++)
+                a[i] = (uint8_t)v[i];
+            rewrite_loop<uint8_t>("hex_to_uint8", (char *)fld.p, a, 64, [](char *f, uint8_t x) { uint8_to_hex(f, x); }, [](const char *f) { return hex_to_uint8(f); });
+            // the nibble/byte helpers take their characters by value; same loop for completeness
+            for (int i = 0; i < 64; i++)
+                if (hex2byte(HEXU[a[i] >> 4], HEXU[a[i] & 15]) != a[i])
+                    mc::violation("C18.half_helpers.value", "hex2byte of %02x", a[i]);
+        }
+        else if (w == 1)
+        {
+            uint16_t a[64];
+            for (int i = 0; i < 64; i++)
+                a[i] = (uint16_t)v[i];
+            rewrite_loop<uint16_t>("hex_to_uint16", (char *)fld.p, a, 64, [](char *f, uint16_t x) { uint16_to_hex(f, x); }, [](const char *f) { return hex_to_uint16(f); });
+        }
+        else if (w == 2)
+        {
+            uint32_t a[64];
+            for (int i = 0; i < 64; i++)
+                a[i] = (uint32_t)v[i];
+            rewrite_loop<uint32_t>("hex_to_uint32", (char *)fld.p, a, 64, [](char *f, uint32_t x) { uint32_to_hex(f, x); }, [](const char *f) { return hex_to_uint32(f); });
+        }
+        else
+            rewrite_loop<uint64_t>("hex_to_uint64", (char *)fld.p, v, 64, [](char *f, uint64_t x) { uint64_to_hex(f, x); }, [](const char *f) { return hex_to_uint64(f); });
+        {
+            // the byte-string decoder through the same pointers after the text was rewritten
+            Exact txt(8), outb(4);
+            uint8_t first[4], second[4];
+            uint32_t a = (uint32_t)v[2], b = (uint32_t)v[3];
+            uint32_to_hex((char *)txt.p, a);
+            hexascii_decode(txt.p, 8, outb.p);
+            memcpy(first, outb.p, 4);
+            uint32_to_hex((char *)txt.p, b);
+            hexascii_decode(txt.p, 8, outb.p);
+            memcpy(second, outb.p, 4);
+            uint8_t wa[4] = {(uint8_t)(a >> 24), (uint8_t)(a >> 16), (uint8_t)(a >> 8), (uint8_t)a}, wb[4] = {(uint8_t)(b >> 24), (uint8_t)(b >> 16), (uint8_t)(b >> 8), (uint8_t)b};
+            if (memcmp(first, wa, 4) || memcmp(second, wb, 4))
+                mc::violation("C18.hexascii_decode.recompute_stale", "text rewritten in place %08x -> %08x: decoded %s then %s", a, b, mc::hex(first, 4).c_str(), mc::hex(second, 4).c_str());
+        }
+        mc::crash_context("C18.harness");
+        mc::outcome(mc::fmt("%d", w));
+        mc::more_cases(63, 63);
+        mc::nontrivial();
+    });
+
     // (d) fixed-width helpers: every 8- and 16-bit value
-    mc::add_check("fixed_width_all_8_16_bit", [] {
+    mc::add_check(NAME("fixed_width_all_8_16_bit"), [] {
         int hi = mc::choose(256);
         mc::describe("uint8 %02x, uint16 %02x00..%02xff", hi, hi, hi);
         check_u8((uint8_t)hi);
@@ -573,7 +716,7 @@ MC_INIT
     });
 
     // (e) fixed-width helpers: structured complete 32/64-bit families
-    mc::add_check("fixed_width_32_64_bit_families", [] {
+    mc::add_check(NAME("fixed_width_32_64_bit_families"), [] {
         // uint32: 32 bit families + 4 lanes + 1 misc = 37; uint64: 64 + 8 + 1 = 73
         int c = mc::choose(37 + 73);
         int W = c < 37 ? 32 : 64, f = c < 37 ? c : c - 37;
